@@ -1320,9 +1320,12 @@ class SymEval:
                         conds.append(c1)
                         if self.truth(c1) is None:
                             inner.assume(c1, True)
-                for n in ast.walk(g.target):
-                    if isinstance(n, ast.Name):
-                        inner.env[n.id] = ("elem", it, lid)
+                if isinstance(g.target, (ast.Tuple, ast.List)) and all(isinstance(n, (ast.Name, ast.Tuple, ast.List, ast.Store)) for n in ast.walk(g.target)):
+                    self.assign(g.target, ("elem", it, lid), inner, e)  # `for a, b in X`: a, b are the components of the element
+                else:
+                    for n in ast.walk(g.target):
+                        if isinstance(n, ast.Name):
+                            inner.env[n.id] = ("elem", it, lid)
             self._loops.append(lid)
             for g in e.generators:
                 for cnd in g.ifs:  # the filter conditions guard the element expression
